@@ -105,46 +105,18 @@ func (cm *CMap) parseCodeSpaceRange(content string) error {
 	section := content[beginIdx+len("begincodespacerange") : endIdx]
 
 	// Parse the first code range to determine byte width
-	// Format: <low> <high>
+	// Format: <low> <high> (the two bounds may stand on separate lines)
 	// Example: <0000> <FFFF> means 2-byte codes (4 hex digits = 2 bytes)
-	lines := strings.Split(section, "\n")
-	for _, line := range lines {
-		line = strings.TrimSpace(line)
-		if line == "" {
-			continue
-		}
-
-		// Find hex strings
-		var hexStrings []string
-		startIdx := 0
-		for {
-			idx := strings.Index(line[startIdx:], "<")
-			if idx == -1 {
-				break
-			}
-			idx += startIdx
-			endIdx := strings.Index(line[idx:], ">")
-			if endIdx == -1 {
-				break
-			}
-			endIdx += idx
-
-			hexStr := line[idx+1 : endIdx]
-			hexStrings = append(hexStrings, hexStr)
-			startIdx = endIdx + 1
-		}
-
-		if len(hexStrings) >= 2 {
-			// Determine byte width from first hex string length
-			hexLen := len(hexStrings[0])
-			// Each 2 hex digits = 1 byte
-			cm.byteWidth = hexLen / 2
-			if hexLen%2 != 0 {
-				cm.byteWidth = (hexLen + 1) / 2
-			}
-			break // We got what we needed
-		}
+	low, rest, ok := nextHexToken(section)
+	if !ok {
+		return nil
 	}
+	if _, _, ok := nextHexToken(rest); !ok {
+		return nil
+	}
+	low = strings.Join(strings.Fields(low), "")
+	// Each 2 hex digits = 1 byte
+	cm.byteWidth = (len(low) + 1) / 2
 
 	return nil
 }
